@@ -68,3 +68,9 @@ CLAIMS["C13"] = dict(
     note="Trusted: lock classes = (struct type, field path) with arrays/maps collapsed; instance identity only for receiver/parameter-rooted locks; guard table and rank table in checker/rules_lck.go (frozen from the README hierarchy and reading); a loop-acquired lock is not a must-hold (4 table exceptions, each with reason).",
     technique="static analysis: interprocedural may/must lockset dataflow over SSA + VTA call graph, lock-order graph with SCC/rank/gate analysis",
 )
+CLAIMS["C04"] = dict(
+    ref="DESIGN.md §4 C04",
+    text="Decides bookkeeping invariants whose breach makes reads wrong only after particular histories: all id-allocation sites use one convention so single and batch inserts reserve disjoint internal ids (GRD-idalloc); the two id maps are maintained as inverses, a reverse-keyed delete checks that the forward entry still points there, tombstones are never re-registered (GRD-idmap); every enumeration admits a node only through its not-Deleted test (GRD-list); every index rebuild site carries auto-links, memory and maintenance config over (SIB-2); batches validate all ids, including repeats inside the batch, before mutating (SIB-5); metadata read-modify-write stays under one per-node lock (GRD-rmw). The state-machine equivalence itself is NOT decided.",
+    note="Trusted: typed AST/SSA of pkg/core/hnsw; arithmetic is followed only through +/- of the batch size and constants.",
+    technique="static analysis: allocation-convention agreement, paired-store and guard-dominates-effect checks over AST/SSA",
+)
